@@ -14,7 +14,7 @@ from .. import core
 from .c13 import export_words  # noqa: F401  (worker entry point lives in c13)
 
 LEVEL = "model_checking"
-CFG = ("SPECIFICATION Spec\nCONSTANTS\n  AsciiOnlyDigits = %s\n  TrimNeedsBothEnds = %s\n  CroatStrict = %s\n  MaxLen = %d\nINVARIANT WsInvariant\nINVARIANT ComposedInvariant\nINVARIANT PadInvariant\nINVARIANT CroatInvariant\n"
+CFG = ("SPECIFICATION Spec\nCONSTANTS\n  AsciiOnlyDigits = %s\n  TrimNeedsBothEnds = %s\n  CroatStrict = %s\n  MaxLen = %d\nINVARIANT WsInvariant\nINVARIANT ComposedInvariant\nINVARIANT PadInvariant\nINVARIANT CroatInvariant\nINVARIANT YearMarkInvariant\n"
        "INVARIANT DigitScriptInvariant\nCHECK_DEADLOCK FALSE\n")
 BASE = [2021, 6, 15, 12, 0, 0, 0]
 
@@ -51,7 +51,7 @@ def run(ctx):
     mc.require_clean()
     pinned = ctx.tlc("P_C18", CFG % ("TRUE", "FALSE", "FALSE", 4), timeout=600, name="P_C18_pinned")
     # the pinned trim rule (whitespace at BOTH ends or none is removed): '1: ' keeps its colon
-    pinned_trim = ctx.tlc("P_C18", (CFG % ("FALSE", "TRUE", "FALSE", 4)).replace("INVARIANT CroatInvariant\n", ""), timeout=600, name="P_C18_pinned_trim")
+    pinned_trim = ctx.tlc("P_C18", (CFG % ("FALSE", "TRUE", "FALSE", 4)).replace("INVARIANT CroatInvariant\nINVARIANT YearMarkInvariant\n", ""), timeout=600, name="P_C18_pinned_trim")
     if "ComposedInvariant" not in pinned_trim.invariant_violated and "PadInvariant" not in pinned_trim.invariant_violated:
         raise core.Machinery("the pinned trim rule of the sanitiser is not refuted")
     # the pinned Croatian rule (at most one blank between the numbers, exactly ' u')
